@@ -36,10 +36,10 @@ __CPROVER_ensures((__CPROVER_return_value == 0 || __CPROVER_return_value == 1) &
 __CPROVER_ensures(g_d2_upk_ok == ((const void *)c == g_d2_dst && (const void *)a == g_d2_dst && g_d2_rx == 1 && g_d2_rcalls == 1 && g_d2_bitok == 1));
 
 /* quadratic-extension element: 2B bytes = both coefficients through the validating field decoder at offsets 0 and B; B+1 bytes
-   (compressed unitary element) = first coefficient through the validating decoder, second coefficient := the bit taken from byte
-   B, then decompressed in place; any other length: error, output untouched.
-   With -DVC_C07X_STRICT the two clauses the property demands in addition (and the code does not meet, see the report: finding
-   "fp2_read_bin compressed form") are added: the sign byte is 0 or 1, and the decompression succeeded. */
+   (compressed unitary element) = the sign byte (byte B) must be 0 or 1, else error before anything is decoded and the output is
+   untouched; first coefficient through the validating decoder, second coefficient := the bit taken from byte B, then decompressed in
+   place exactly once; no error reported ==> the decompression reported success (fp2_upk returned 1); any other length: error,
+   output untouched.  No error of its own otherwise. */
 void fp2_read_bin(fp2_t a, const uint8_t *bin, size_t len)
 __CPROVER_requires(len <= 2 * VC_B + 2 && __CPROVER_is_fresh(a, sizeof(fp2_t)) && __CPROVER_is_fresh(bin, len))
 __CPROVER_requires(g_may_throw == 1 && g_ctx.code == RLC_OK && g_d2_bin0 == bin && g_d2_dst == (const void *)a && g_d2_rx == 0 && g_d2_ry == 0 && g_d2_rcalls == 0 && g_d2_z1 == 0 && g_d2_bitok == 0 \
@@ -48,13 +48,13 @@ __CPROVER_requires(gk < 2 * RLC_FP_DIGS ==> ((const dig_t *)a)[gk] == g_dig0)
 VC_ASSIGNS(__CPROVER_object_upto(a, sizeof(fp2_t)), g_d2_rx, g_d2_ry, g_d2_rcalls, g_d2_z1, g_d2_bitok, g_d2_bitval, g_d2_upk_calls, g_d2_upk_ok, g_d2_upk_ret, g_d2_cal_err, \
 	g_ctx.code, g_ctx.last, g_ctx.caught, g_ctx.error, g_ctx.number, g_thrown)
 __CPROVER_ensures(g_ctx.code == RLC_OK || g_ctx.code == RLC_ERR)
-__CPROVER_ensures((len != VC_B + 1 && len != 2 * VC_B) ==> (g_ctx.code == RLC_ERR && g_d2_rcalls == 0 && g_d2_upk_calls == 0 && (gk < 2 * RLC_FP_DIGS ==> ((const dig_t *)a)[gk] == g_dig0)))
+__CPROVER_ensures(((len != VC_B + 1 && len != 2 * VC_B) || (len == VC_B + 1 && bin[VC_B] > 1)) ==> (g_ctx.code == RLC_ERR && g_d2_rcalls == 0 && g_d2_upk_calls == 0 && (gk < 2 * RLC_FP_DIGS ==> ((const dig_t *)a)[gk] == g_dig0)))
 __CPROVER_ensures(len == 2 * VC_B ==> (g_d2_rx == 1 && g_d2_ry == 1 && g_d2_rcalls == 2 && g_d2_upk_calls == 0))
-__CPROVER_ensures(len == VC_B + 1 ==> (g_d2_rx == 1 && g_d2_rcalls == 1 && g_d2_upk_calls == 1 && g_d2_upk_ok == 1 && g_d2_bitval == bin[VC_B]))
-__CPROVER_ensures(((len == VC_B + 1 || len == 2 * VC_B) && g_d2_cal_err == 0) ==> g_ctx.code == RLC_OK)
-#ifdef VC_C07X_STRICT
+__CPROVER_ensures((len == VC_B + 1 && bin[VC_B] <= 1) ==> (g_d2_rx == 1 && g_d2_rcalls == 1 && g_d2_upk_calls == 1 && g_d2_upk_ok == 1 && g_d2_bitval == bin[VC_B]))
+/* the property's clauses: accepted compressed input has a canonical sign byte and did decompress */
 __CPROVER_ensures((g_ctx.code == RLC_OK && len == VC_B + 1) ==> (bin[VC_B] <= 1 && g_d2_upk_ret == 1))
-#endif
+__CPROVER_ensures((len == 2 * VC_B && g_d2_cal_err == 0) ==> g_ctx.code == RLC_OK)
+__CPROVER_ensures((len == VC_B + 1 && bin[VC_B] <= 1 && g_d2_cal_err == 0 && g_d2_upk_ret == 1) ==> g_ctx.code == RLC_OK)
 ;
 #endif
 
